@@ -108,6 +108,27 @@ def w_sweep(elements):
     return evs
 
 
+VERY_WIDE = [("coverage", ["geographicCoverage"]), ("coverage", ["geographicCoverage", "temporalCoverage", "taxonomicCoverage"]), ("access", ["allow"]), ("access", ["allow", "deny"]),
+             ("dataset", ["dataTable"]), ("attributeList", ["attribute"]), ("abstract", ["para"]), ("abstract", ["section", "para"]), ("keywordSet", ["keyword"]),
+             ("methods", ["methodStep"]), ("zzUnknownParent", ["zzUnknown"]), ("additionalMetadata", ["metadata"])]
+
+
+def w_very_wide(jobs):
+    """Shallow trees with more children than the interpreter allows stack frames: width is not depth, the claim covers it."""
+    from metapype.model.node import Node
+    evs = []
+    for (kind, names, width) in jobs:
+        Node.store.clear()
+        root = Node(kind)
+        for i in range(width):
+            root.add_child(Node(names[i % len(names)]))
+        ev = valtrace.observe_tree(root, per_node=False)
+        ev["desc"] = {"base": "very wide", "kind": kind, "children": width, "names": names}
+        evs.append(ev)
+        Node.store.clear()
+    return evs
+
+
 def w_cases(seeds):
     from metapype.model.node import Node
     evs = []
@@ -151,6 +172,15 @@ def w_cases(seeds):
                 if m:
                     muts.append(m)
         desc["mutations"] = muts
+        if seed % 7 == 1:
+            Node.store.clear()                         # a live tree none of whose nodes is registered
+            desc["tree"] = "registry emptied after building"
+        elif seed % 7 == 2:
+            try:
+                root = valtrace.reid(root)             # every node carries the same id
+                desc["tree"] = "all nodes share one id"
+            except Exception:  # noqa: BLE001 - not representable in JSON: keep the tree as built
+                pass
         nn = sum(1 for _ in walk(root))
         ev = valtrace.observe_tree(root, per_node=(nn <= 700))
         ev["desc"] = desc
@@ -166,6 +196,8 @@ def run(rep, tier, seed):
     n = 400 if tier == "quick" else 12000
     evs = [e for chunk in parallel(w_cases, [seed * 1000003 + i for i in range(n)]) for e in chunk]
     evs += [e for chunk in parallel(w_sweep, sorted(t.node_map)) for e in chunk]
+    widths = [1100, 2500] if tier == "quick" else [1100, 2500, 6000]
+    evs += [e for chunk in parallel(w_very_wide, [(k, nm, w) for (k, nm) in VERY_WIDE for w in widths], chunk=1) for e in chunk]
     strip = lambda e: {k: v for k, v in e.items() if k != "desc"}  # noqa: E731
     rejects, r = judge_traces([strip(e) for e in evs], PID, module="TraceValidate", cfg="TraceValidate.cfg", label="trees", timeout=3000)
     rep.cov["traces_validated_against_impl"] = len(evs)
